@@ -17,6 +17,7 @@ import (
 
 	"go.uber.org/zap"
 	"go.uber.org/zap/zapcore"
+	"go.uber.org/zap/zzverif/vsched"
 	"verif/harness/internal/encx"
 	"verif/harness/internal/ev"
 )
@@ -69,6 +70,9 @@ func mkSink(i, outcome int) *fsink {
 
 const nOutcomes = 5
 
+var hungOutsideScheduler bool
+var stuckTopo = map[string]int{}
+
 // how the entry ends: ordinary levels return; the terminal ones run an action that
 // does not come back (panic, goroutine exit) or - Fatal with a returning hook - stand in for os.Exit
 type endMode struct {
@@ -94,7 +98,7 @@ var modes = []endMode{
 func sinkFaults(run *ev.Run, maxK int) (evals int, distinct map[string]bool) {
 	distinct = map[string]bool{}
 	enc := func() zapcore.Encoder { return zapcore.NewJSONEncoder(zap.NewProductionEncoderConfig()) }
-	for _, topo := range []string{"tee", "teewrap", "multi"} {
+	for _, topo := range []string{"tee", "teewrap", "multi", "tee-locked", "combine"} {
 		for k := 1; k <= maxK; k++ {
 			total := 1
 			for i := 0; i < k; i++ {
@@ -112,10 +116,14 @@ func sinkFaults(run *ev.Run, maxK int) (evals int, distinct map[string]bool) {
 						x /= nOutcomes
 					}
 					var core zapcore.Core
-					if topo == "tee" || topo == "teewrap" {
+					if topo == "tee" || topo == "teewrap" || topo == "tee-locked" {
 						cores := make([]zapcore.Core, k)
 						for i, s := range sinks {
-							cores[i] = zapcore.NewCore(enc(), s, zapcore.DebugLevel)
+							var ws zapcore.WriteSyncer = s
+							if topo == "tee-locked" {
+								ws = zapcore.Lock(s) // the usual way to hand a sink to a core: a lock kept on an error path blocks the next entry
+							}
+							cores[i] = zapcore.NewCore(enc(), ws, zapcore.DebugLevel)
 						}
 						core = zapcore.NewTee(cores...)
 						if topo == "teewrap" {
@@ -128,7 +136,11 @@ func sinkFaults(run *ev.Run, maxK int) (evals int, distinct map[string]bool) {
 						for i, s := range sinks {
 							wss[i] = s
 						}
-						core = zapcore.NewCore(enc(), zapcore.NewMultiWriteSyncer(wss...), zapcore.DebugLevel)
+						if topo == "combine" {
+							core = zapcore.NewCore(enc(), zap.CombineWriteSyncers(wss...), zapcore.DebugLevel)
+						} else {
+							core = zapcore.NewCore(enc(), zapcore.NewMultiWriteSyncer(wss...), zapcore.DebugLevel)
+						}
 					}
 					eo := &errOut{}
 					fatals := 0
@@ -153,7 +165,7 @@ func sinkFaults(run *ev.Run, maxK int) (evals int, distinct map[string]bool) {
 						opts = append(opts, zap.Development())
 					}
 					logger := zap.New(core, opts...)
-					returned := func() (ok bool) {
+					logAll := func() (ok bool) {
 						defer func() {
 							if r := recover(); r != nil {
 								run.Report(key("panic"), desc+": log call panicked: "+fmt.Sprint(r), desc)
@@ -170,7 +182,13 @@ func sinkFaults(run *ev.Run, maxK int) (evals int, distinct map[string]bool) {
 									logger.Log(lvl, msg, zap.Int("n", e))
 									run.Report(key("goexit-returned"), desc+": Fatal with WriteThenGoexit returned", desc)
 								}()
-								<-done
+								select {
+								case <-done:
+								case <-time.After(30 * time.Second): // reached only when the call hangs (this mode runs outside the controlled scheduler)
+									run.Report(key("call-does-not-return"), desc+": Fatal with WriteThenGoexit neither returned nor ended its goroutine within 30s", desc)
+									hungOutsideScheduler = true
+									return false
+								}
 							case mode.panics:
 								func() {
 									defer func() {
@@ -196,7 +214,26 @@ func sinkFaults(run *ev.Run, maxK int) (evals int, distinct map[string]bool) {
 						}
 						_ = logger.Sync()
 						return true
-					}()
+					}
+					returned := false
+					if stuckTopo[topo] >= 8 {
+						continue // reported; the blocked threads of every further stuck case stay parked in the scheduler
+					}
+					if mode.goexit && (hungOutsideScheduler || stuckTopo[topo] > 0) {
+						continue // a call already hung in this mode: reported; every further case would wait out the guard again
+					}
+					if mode.goexit {
+						returned = logAll() // spawns goroutines of its own: outside the controlled scheduler
+					} else {
+						// under the controlled scheduler a call that never returns (a lock kept on an error path)
+						// is a deadlock verdict of this case instead of a hang of the enumeration
+						res := vsched.Run(nil, func() { returned = logAll() })
+						if res.Verdict != vsched.OK && res.Verdict != vsched.Panicked {
+							run.Report(key("call-does-not-return"), fmt.Sprintf("%s: the logging calls did not all return (%s)", desc, res.Blocked), desc)
+							returned = false
+							stuckTopo[topo]++
+						}
+					}
 					evals++
 					distinct[topo+label] = true
 					if !returned {
@@ -280,7 +317,7 @@ func main() {
 	run.Assume = []string{
 		"field faults: marshaler error before / between / after children at every node of every tree with <= the stated number of nodes, unencodable reflected values (channel, failing json.Marshaler) as fields and as array elements, panicking Stringer / Error() / Errors(), nil-pointer Stringer and error (rendered as \"<nil>\" under the field's own key, which zap documents in encodeStringer/encodeError)",
 		"elements of the same array after a failing element are not required (zap's array marshalers stop at the first error; the statement speaks of other fields)",
-		"sink/core faults: every vector over {ok, write error, short write + error, sync error, nothing written + error} for tees and multi-syncers of k destinations, two entries each, ending in every way an entry can end: info, error, dpanic (production), fatal with a hook standing in for os.Exit (the report must be on the error output when the hook starts), panic, dpanic under Development (recovered), fatal with WriteThenGoexit (own goroutine); and the same vectors through Core.Check + CheckedEntry.Write without a Logger and through the zapslog handler, where no error output is configured (every destination still receives the entry, the call returns)",
+		"sink/core faults: every vector over {ok, write error, short write + error, sync error, nothing written + error} for tees (sinks bare and behind zapcore.Lock), multi-syncers and CombineWriteSyncers of k destinations (each case under the controlled scheduler, so a call that never returns is a deadlock verdict), two entries each, ending in every way an entry can end: info, error, dpanic (production), fatal with a hook standing in for os.Exit (the report must be on the error output when the hook starts), panic, dpanic under Development (recovered), fatal with WriteThenGoexit (own goroutine); and the same vectors through Core.Check + CheckedEntry.Write without a Logger and through the zapslog handler, where no error output is configured (every destination still receives the entry, the call returns)",
 		"field faults are also run with a user-supplied NewReflectedEncoder that has already written part of its output when it fails (a streaming encoder)",
 	}
 	cov := d.Coverage("field part: one evaluation = one log call on the real JSON core with a failing field somewhere in the tree, decoded and compared with the reference tree that contains the <key>Error member and every other field; sink part: one evaluation = one (topology, outcome vector, level) run of two entries; distinct = distinct output lines / outcome vectors")
